@@ -61,6 +61,10 @@ func (r *streamReader) Receive(stream DRPCRemote_ReceiveStream) error {
 			var sender *actor.PID
 			if len(envelope.Senders) > 0 {
 				sender = envelope.Senders[msg.SenderIndex]
+				// the empty PID stands for "no sender".
+				if sender != nil && sender.Address == "" && sender.ID == "" {
+					sender = nil
+				}
 			}
 			r.remote.engine.SendLocal(target, payload, sender)
 		}
